@@ -217,7 +217,7 @@ def strat():
             T = draw(st.integers(300, 420))
             C = draw(st.sampled_from([140, 300]))
         blank = draw(st.integers(0, C - 1))
-        kind = draw(st.sampled_from(["float", "float", "int", "int01", "huge", "tiny"]))
+        kind = draw(st.sampled_from(["float", "float", "int", "int01", "huge", "tiny", "signed"]))
         pinf = draw(st.sampled_from([0.0, 0.0, 0.15, 0.4]))
         rows = []
         if big:
@@ -234,6 +234,8 @@ def strat():
                     r.append(float(draw(st.integers(750, 3000))) + draw(st.sampled_from([0.0, 0.25])))
                 elif kind == "tiny":        # -log of probabilities indistinguishable from 1 after exp()
                     r.append(draw(st.sampled_from([0.0, 1e-18, 3e-17, 5e-16, 1e-12, 2e-9])))
+                elif kind == "signed":      # costs are any real numbers (scores with a bonus, log-likelihood ratios): negative ones too
+                    r.append(draw(st.floats(-6, 6, allow_nan=False, width=32)))
                 elif kind == "int":
                     r.append(float(draw(st.integers(0, 4))))
                 else:
